@@ -28,9 +28,23 @@ def teardown(nmod, st, persist, cndup=0, mndup=0, looped=0, drop=0, cb=0, leak=F
     return l2_job(name, "l2/c07_teardown.c", defines=d, symbolic=SYM_T, bounds=name, unwind=13, fp_extra=HOOK, leak=leak)
 
 
+SYM_A = ["errno left by callbacks (int)", "M_CTX_USERDATA_AUTOFREE bit", "module user data identity"]
+MODES = {0: "idle", 1: "instart", 2: "dispatch", 3: "loop", 4: "replace", 5: "instop", 6: "lateadd"}
+
+
+def autorel(mode, nmod, persist, keep=1, st=1, leak=False):
+    name = "C07.autorel.%s.n%d.p%d.k%d.s%d" % (MODES[mode], nmod, persist, keep, st)
+    d = {"MODE": mode, "NMOD": nmod, "PERSIST": persist, "KEEP": keep, "ST": st}
+    return l2_job(name, "l2/c07_autorelease.c", defines=d, symbolic=SYM_A, bounds=name, unwind=13, fp_extra=HOOK, leak=leak)
+
+
 def jobs(tier):
     js = []
     js.append(teardown(2, (1, 0), 1))
+    for mode in range(7):
+        js.append(autorel(mode, 2 if mode in (5,) else 1, 0))
+    js.append(autorel(2, 2, 0, keep=0))
+    js.append(autorel(0, 2, 1, keep=0, st=2))
     return js
 
 
